@@ -696,6 +696,15 @@ func (e *Exec) execSlice(fr *Frame, st *State, x *ssa.Slice) Val {
 		al, ok := x.X.(*ssa.Alloc)
 		arr := pt.Elem().Underlying().(*types.Array)
 		la := st.larr[al]
+		if ok && la != nil && x.Low == nil && x.High != nil {
+			// arr[:h] with a constant h
+			if hc, isC := x.High.(*ssa.Const); isC && int(hc.Int64()) <= len(la.elems) {
+				cp := *la
+				cp.elems = append([]Val{}, la.elems[:hc.Int64()]...)
+				la = &cp
+				x = &ssa.Slice{X: x.X}
+			}
+		}
 		if !ok || la == nil || x.Low != nil || x.High != nil {
 			e.unsupported("%s: partial slice of array pointer", e.name)
 			return e.freshVal("sl", x.Type(), kindOf(x.Type()))
